@@ -46,7 +46,7 @@ def _exec_pair(job):
         tr = gwdriver.run_history(i2, events)
         out[side] = [{"k": e["k"], "n": e["n"], "c": e["c"], "cmd": e["cmd"], "t": e["t"], "p": e["p"],
                       "out": e["out"], "wr": [{k: v for k, v in w.items() if k != "ids"} for w in e["wr"]],
-                      "post": {"nodes": e["post"]["nodes"]}} for e in tr["events"]]
+                      "pre": {"nodes": e["pre"]["nodes"]}, "post": {"nodes": e["post"]["nodes"]}} for e in tr["events"]]
     return {"older": older, "newer": newer, "a": out["a"], "b": out["b"],
             "input": {"init": init, "events": [{k: v for k, v in e.items() if k != "obj"} for e in events]}}
 
